@@ -356,6 +356,9 @@ SigFacts evaluate(const SigView &v) {
 			const AggChain &p = v.agg[i - 1];
 			if (p.index.size() != c.index.size() + 1 || !std::equal(c.index.begin(), c.index.end(), p.index.begin())) { ok = false; f.why = "index continuation"; }
 		}
+		// imprints have the length of their algorithm's digest
+		for (auto &l : c.links) if (l.kind == 0 && (l.sib.empty() || hash_len((unsigned char)l.sib[0]) == 0 || (size_t)hash_len((unsigned char)l.sib[0]) + 1 != l.sib.size())) { ok = false; f.why = "imprint length"; }
+		if (c.input.empty() || hash_len((unsigned char)c.input[0]) == 0 || (size_t)hash_len((unsigned char)c.input[0]) + 1 != c.input.size()) { ok = false; f.why = "imprint length"; }
 		// metadata records (INT-11): a padding element comes first, is a TLV8 with the N and F flags and the value 01 or 01 01, and
 		// makes the record's length even; a record without padding must not have the length and first octet of an imprint
 		for (auto &l : c.links) if (l.kind == 2) {
